@@ -22,6 +22,7 @@ Result dict:
 import contextlib
 import hashlib
 import io
+import itertools
 import json
 import multiprocessing
 import os
@@ -319,6 +320,13 @@ def run_check(name, tier, seed, jobs=None, max_replays=12, limit=None, triage=Fa
     items = list(mod.items(tier, seed))
     if limit:
         items = items[:limit]
+    if wall and any(isinstance(it, dict) and it.get('tag') for it in items):
+        # under an overall wall cap the strata are interleaved (each still simplest-first), so that whatever is not
+        # reached is the tail of every stratum rather than the whole of the later ones
+        groups = {}
+        for it in items:
+            groups.setdefault(it.get('tag') if isinstance(it, dict) else None, []).append(it)
+        items = [it for row in itertools.zip_longest(*groups.values()) for it in row if it is not None]
     budget = budget_of(mod, tier)
     scratch_root = tempfile.mkdtemp(prefix='vt_%s_' % prop)
     results = [None] * len(items)
